@@ -309,7 +309,9 @@ class ProductType(ParametrizedDependentType):
             else:
                 return Order.NONE
         else:
-            return NotImplemented
+            # Against anything else a tuple type is ordered like any other
+            # dependent type: below its bound
+            return super().__type_order__(other)
 
 
 @dependent_check(bound_is_name=True)
